@@ -108,8 +108,8 @@ void ddm_get_derivative_dynmat_at_q(
 
     /* Symmetrize to be a Hermitian matrix */
     for (i = 0; i < 3; i++) {
-        for (j = i; j < num_patom * 3; j++) {
-            for (k = 0; k < num_patom * 3; k++) {
+        for (j = 0; j < num_patom * 3; j++) {
+            for (k = j; k < num_patom * 3; k++) {
                 adrs = i * num_patom * num_patom * 9 + j * num_patom * 3 + k;
                 adrsT = i * num_patom * num_patom * 9 + k * num_patom * 3 + j;
                 derivative_dynmat[adrs][0] += derivative_dynmat[adrsT][0];
